@@ -20,6 +20,10 @@ fn dispatch(id: &str, ctx: &Ctx) -> Option<Report> {
         "C12" => mon::c12::run(ctx),
         "C17" => mon::c17::run(ctx),
         "C18" => mon::c18::run(ctx),
+        "C08" => mon::c08::run(ctx),
+        "C03" => mon::c03::run(ctx),
+        "C09" => mon::c09::run(ctx),
+        "C13" => mon::c13::run(ctx),
         _ => return None,
     })
 }
